@@ -657,7 +657,8 @@ fn cand_decl(c: &Cand, fname: &str, in_struct: bool) -> Option<(String, Option<S
         };
         let mut d = format!("{}{} p{}{}", io, t, i, suf);
         if i >= c.non_default {
-            if p.io != Io::In || !is_numeric(p.ty.layer) {
+            // (a default value of a template-typed parameter is checked when the template is instantiated)
+            if p.io != Io::In || !(is_numeric(p.ty.layer) || matches!(p.ty.layer, Layer::TVar(_) | Layer::TVec(..) | Layer::TMat(..))) {
                 return None;
             }
             d.push_str(&format!(" = ({})0", t));
@@ -2977,8 +2978,13 @@ fn random_template_set(rng: &mut Rng, hist: &mut Hist) -> (Vec<Cand>, Vec<Ty>) {
             })
             .collect();
         let mut non_default = arity;
-        if arity > 1 && rng.chance(1, 10) && params[arity - 1].io == Io::In && is_numeric(params[arity - 1].ty.layer) {
+        let defaultable = |l: Layer| is_numeric(l) || matches!(l, Layer::TVar(_) | Layer::TVec(..) | Layer::TMat(..));
+        if arity > 1 && rng.chance(1, 6) && params[arity - 1].io == Io::In && defaultable(params[arity - 1].ty.layer) {
             non_default = arity - 1;
+            // a defaulted `T` parameter: is `T` still deduced when no argument is given for it?
+            if is_template_layer(params[arity - 1].ty.layer) {
+                hist.add("tset:default-value-of-a-template-typed-parameter");
+            }
         }
         // two ordinary functions with one parameter list are a redefinition, not an overload set
         // (a template whose parameter types do not mention its template parameters counts as one too)
